@@ -495,9 +495,9 @@ func TestVerifC11Lifecycle(t *testing.T) {
 		}
 		return
 	}
-	depth, maxFault := 4, 3
+	depth, maxFault := 5, 3
 	if ev.Thorough() {
-		depth, maxFault = 5, 6
+		depth, maxFault = 6, 6
 	}
 	res.Bounds["depth"] = depth
 	res.Bounds["fault_call_indexes"] = maxFault
